@@ -48,6 +48,15 @@ RECURSIVE DecToNat(_)
 DecToNat(d) == IF StrLen(d) = 0 THEN 0 ELSE 10 * DecToNat(SubStr(d, 1, StrLen(d) - 1)) +
                  (CHOOSE k \in 0..9 : SubStr("0123456789", k + 1, k + 1) = SubStr(d, StrLen(d), StrLen(d)))
 
+\* Conditional fields  name:(f . k)?T / name:f?T  and types parametrised by a number  (T f) / (T 3)  look an earlier field up.
+\* env entries are <<name, value>> or <<name, value, kind of the field's type>>; the LAST entry of a name counts.
+EnvLast(env, name) == LET ix == {i \in 1..Len(env) : env[i][1] = name} IN env[CHOOSE i \in ix : \A j \in ix : j <= i]
+EnvNat(env, name)  == LET e == EnvLast(env, name) IN
+                      IF Len(e) >= 3 /\ e[3] = "bool" THEN (IF e[2] THEN 1 ELSE 0) ELSE DecToNat(e[2])
+CondHolds(env, ty) == LET x == EnvNat(env, ty.from) IN IF ty.bit < 0 THEN x # 0 ELSE (x \div (2 ^ ty.bit)) % 2 = 1
+IsDigits(s) == StrLen(s) >= 1 /\ \E k \in 0..9 : SubStr("0123456789", k + 1, k + 1) = SubStr(s, 1, 1)
+ParamOf(env, arg) == IF IsDigits(arg) THEN DecToNat(arg) ELSE EnvNat(env, arg)
+
 \* Enc: append the encoding of v : ty to the cell under construction.
 RECURSIVE EncT(_, _, _, _, _)
 EncT(S, ty, v, cur, env) ==
@@ -72,7 +81,7 @@ EncT(S, ty, v, cur, env) ==
          LET a == AppendBits(cur, <<IF v.right THEN 1 ELSE 0>>) IN
          IF ~a.ok THEN a ELSE EncT(S, IF v.right THEN ty.r ELSE ty.l, v.v, a.c, env)
     [] ty.t = "ref" ->
-         LET sub == EncT(S, ty.of, v, EmptyCell, <<>>) IN
+         LET sub == EncT(S, ty.of, v, EmptyCell, env) IN       \* the fields of the constructor stay visible inside ^[ ... ] / ^(T f)
          IF ~sub.ok THEN sub ELSE AddRef(cur, sub.c)
     [] ty.t = "cell" -> Good(TreeOfJson(v))              \* only meaningful directly under "ref": the referenced cell IS v
     [] ty.t = "any" ->
@@ -86,7 +95,7 @@ EncT(S, ty, v, cur, env) ==
          ELSE LET R == FoldLeft(LAMBDA acc, i :
                            IF ~acc.res.ok THEN acc
                            ELSE [res |-> EncT(S, ty.fields[i].ty, v[i], acc.res.c, acc.env),
-                                 env |-> Append(acc.env, <<ty.fields[i].name, v[i]>>)],
+                                 env |-> Append(acc.env, <<ty.fields[i].name, v[i], ty.fields[i].ty.t>>)],
                          [res |-> Good(cur), env |-> <<>>], [i \in 1..Len(v) |-> i])
               IN R.res
     [] ty.t = "sum" ->
@@ -97,6 +106,18 @@ EncT(S, ty, v, cur, env) ==
               IN IF ~a.ok THEN a ELSE EncT(S, k.body, v.v, a.c, <<>>)
     [] ty.t = "dict" -> IF Len(v) = 0 THEN AppendBits(cur, <<0>>) ELSE Fail("non-empty dictionary: encoding not unique")
     [] ty.t = "named" -> EncT(S, S[ty.name], v, cur, env)
+    [] ty.t = "cond" ->                                      \* name:cond?T: present exactly when the condition on the earlier field holds
+         LET present == CondHolds(env, ty) IN
+         IF v.has # present THEN Fail("conditional field: presence contradicts its condition")
+         ELSE IF present THEN EncT(S, ty.of, v.v, cur, env) ELSE Good(cur)
+    [] ty.t = "pnamed" ->                                    \* (T x): the constructors declared for parameter value x
+         LET p  == ParamOf(env, ty.arg)
+             cs == S[ty.name].ctors
+             ix == {i \in 1..Len(cs) : cs[i].param = p /\ cs[i].name = v.c} IN
+         IF ix = {} THEN Fail("no such constructor for this parameter")
+         ELSE LET k == cs[CHOOSE i \in ix : TRUE]
+                  a == AppendBits(cur, TagBits(k.tag))
+              IN IF ~a.ok THEN a ELSE EncT(S, k.body, v.v, a.c, <<>>)
     [] OTHER -> Fail("unsupported type node")
 
 \* Enc of a whole value into a fresh cell
